@@ -74,6 +74,7 @@ class SolverState(object):
         self.ranges_on = False
         self.last_op_stop = False
         self.moved_by_ranges = False
+        self.pair_clean = True     # no constraints / penalty / reducer ever installed
         self.cur_con = None; self.cur_box = None; self.cur_mode = None
         self.box_log = []          # (first call index, (lo, hi)) boxes in force, for C02
         self.box_since_start = None; self.box_changed = False
@@ -166,6 +167,19 @@ class SolverState(object):
             self._check_evalmon(where)
         elif self.evalmon is not None and self.evalmon_from_start:
             self._check_evalmon(where)
+        if self.pair_clean and not self.moved_by_ranges and self.iters() >= 1 and self.on('C04.best_pair'):
+            # '(best x, best energy)': with no constraints, penalty or reducer ever installed, the reported pair is
+            # one of the evaluations the solver made - the reported point was evaluated and the energy is its value
+            be = float(s.bestEnergy)
+            if math.isfinite(be):
+                bs = lab.fvec(s.bestSolution)
+                v = self.cost.lookup(bs)
+                if not isinstance(v, list):
+                    self.expect(v is not None and float(v) == be, 'C04.best_pair',
+                                lambda: dict(where=where, bestSolution=bs, bestEnergy=be, recorded_value_at_bestSolution=v,
+                                             solver=self.kind, ranges=self.ranges_on, redecorated=self.redecorated))
+                    if self.redecorated and self.ranges_on:
+                        self.ctx.label('best-pair-checked-after-redecoration-with-ranges')
         eh = list(s.energy_history)
         if eh:
             seg = [float(v) for v in eh[self.seg_from:]] if self.seg_from < len(eh) else []
@@ -388,9 +402,11 @@ class SolverState(object):
             c = lab.Constraint(op[1]) if op[1] else None
             self.cur_con = op[1]
             s.SetConstraints(c)
+            self.pair_clean = False
             self.redecorate(); self.invariants('constraints')
         elif k == 'penalty':
             s.SetPenalty(lab.make_penalty(op[1]))
+            self.pair_clean = False
             self.redecorate(); self.invariants('penalty')
         elif k == 'ranges':
             if self.active == 'C02':
@@ -408,6 +424,7 @@ class SolverState(object):
                 self.moved_by_ranges = True
             self.redecorate(); self.invariants('ranges')
         elif k == 'reducer':
+            self.pair_clean = False
             if op[1] is None:
                 s.SetReducer(None)
             else:
